@@ -499,6 +499,10 @@ RULE = ("9 outcome programs (success, two workers racing to stop, step failure w
         "how the run task actually ended; plus a waiting run cancelled before / after its idle release (in-process and DBOS halves), and an "
         "engine-side failure (unserializable step output: the run dies without a terminal event) of a fresh run, of a run reloaded "
         "after an idle release and of a run resumed by a restarted server; non-trivial = at least one deviation or injected fault")
+from vmc.tables import _ROUND7 as _R7  # noqa: E402
+
+RULE += _R7["C15"]
+
 
 
 def run(tier: str, seed: int) -> Any:
